@@ -12,7 +12,7 @@ pub struct C17;
 
 const SEC: u64 = 1_000_000_000;
 const INTERVALS: [u16; 7] = [0, 1, 2, 3, 5, 10, 60];
-const PATTERNS: [&str; 5] = ["idle-client-live-server", "server-goes-silent", "server-talks-at-least-every-h", "client-busy-server-heartbeats", "one-frame-trickling-in"];
+const PATTERNS: [&str; 6] = ["idle-client-live-server", "server-goes-silent", "server-talks-at-least-every-h", "client-busy-server-heartbeats", "one-frame-trickling-in", "server-goes-silent-then-client-closes"];
 
 impl Scenario for C17 {
     fn property(&self) -> &'static str {
@@ -67,8 +67,9 @@ impl Scenario for C17 {
                 }
                 owner_ops.push(OwnerOp::SleepNs(idle_total));
             }
-            1 => {
-                // silent from t0; the owner sleeps well past the expected death
+            1 | 5 => {
+                // silent from t0; the owner sleeps well past the expected death (pattern 5: it calls close()
+                // within 1.6 h of the silence beginning, and the close handshake is never answered either)
                 let t0 = SEC / 10 + cs.choose("silence_at_ms", 3000) as u64 * 1_000_000 + if h > 0 { cs.choose("silence_at_h", 3) as u64 * hs } else { 0 };
                 silence_at = Some(t0);
                 if h > 0 {
@@ -78,7 +79,13 @@ impl Scenario for C17 {
                     // with heartbeats off the server is quiet anyway; it still answers the final close
                     broker.script.push((Trigger::AtTime(t0), Action::Silence));
                 }
-                idle_total = if h == 0 { 10_000 * SEC } else { t0 + 3 * hs + 2 * SEC };
+                idle_total = if h == 0 {
+                    10_000 * SEC
+                } else if pat == 5 {
+                    t0 + (cs.choose("close_after_silence_pm", 1600) as u64 * hs) / 1000
+                } else {
+                    t0 + 3 * hs + 2 * SEC
+                };
                 owner_ops.push(OwnerOp::SleepNs(idle_total));
             }
             2 => {
@@ -196,7 +203,9 @@ impl Scenario for C17 {
         let hb_frames: Vec<usize> = frames.iter().filter(|f| f.ty == 8).map(|f| f.offset).collect();
         let t_open = world.broker.sent.iter().find(|s| matches!(s.kind, crate::broker::SentKind::Handshake("open-ok"))).map(|s| s.time_ns).unwrap_or(0);
         let dead_at = if n.dropped_ns > 0 && close_result.is_err() { Some(n.dropped_ns) } else { None };
-        let end_of_life = dead_at.unwrap_or(close_invoke_ns);
+        // once close() has been called the client's Connection.Close is the last frame it may ever write
+        // (C08): heartbeats legitimately stop there, so the outbound-gap window ends at that call
+        let end_of_life = dead_at.unwrap_or(close_invoke_ns).min(close_invoke_ns);
         let mut times: Vec<u64> = n.writes.iter().map(|w| w.time_ns).filter(|t| *t >= t_open && *t <= end_of_life).collect();
         times.insert(0, t_open);
         times.push(end_of_life);
@@ -215,7 +224,7 @@ impl Scenario for C17 {
         } else {
             let tol = 300_000_000u64;
             match pat {
-                1 => {
+                1 | 5 => {
                     // death time relative to the last inbound byte
                     let want = "MissedServerHeartbeats".to_string();
                     if close_result != Err(want.clone()) {
